@@ -223,6 +223,21 @@ where
     }
 }
 
+/// Verification hook (feature `verif-hooks`): read-only digest of the index contents.
+#[cfg(feature = "verif-hooks")]
+impl<T, const D: usize, K> HashGridIndex<T, D, K>
+where
+    T: CoordinateScalar,
+    K: Copy + Ord,
+{
+    /// Returns `(usable, sorted keys stored in the index)`.
+    pub(in crate::core) fn verif_entries(&self) -> (bool, Vec<K>) {
+        let mut keys: Vec<K> = self.cells.values().flat_map(|b| b.iter().copied()).collect();
+        keys.sort_unstable();
+        (self.usable, keys)
+    }
+}
+
 #[cfg(test)]
 mod tests {
     use super::*;
